@@ -619,19 +619,19 @@ def check(model, rep, tier):
   rep.unit('dup-eval handlers', nb)
 
   # ---------------------------------------------------------------- dependencies
-  rep.depends('C05', ['CFG-STMT', 'CFG-PAIR', 'CFG-TRY', 'CFG-SCOPE', 'CFG-KEYED', 'CFG-JUMP', 'CFG-MIRROR', 'CFG-LEAVES'],
+  rep.depends('C05', None,
               'the dataflow analyses that decide loop / branch state run on this graph')
-  rep.depends('C06', ['RD-JOIN', 'RD-STATE', 'RD-TRANSFER', 'RD-FLAG', 'RD-DRIVER', 'RD-ENTRY', 'RD-CONSUMER'],
+  rep.depends('C06', None,
               'Undefined placeholders are emitted for symbols the reaching-definitions analysis reports as possibly undefined')
-  rep.depends('C07', ['LV-JOIN', 'LV-TRANSFER', 'LV-CLOSURE', 'LV-FLAG', 'LV-DRIVER', 'LV-BLOCK', 'LV-HEADER'],
+  rep.depends('C07', None,
               'a variable that liveness reports dead is dropped from the state of a functionalised block')
-  rep.depends('C08', ['BIND-EXH', 'CTX-TABLE', 'PARAMS', 'FINALIZE', 'ACT-TRAV', 'ACT-ORDER'],
+  rep.depends('C08', None,
               'every later analysis and every state tuple is computed from these read / modified / bound sets')
   rep.depends('C03', ['SEQ', 'GETSET', 'NOUTS', 'CB-ARITY', 'OP-ROLE'],
               'the default operators reach the variables of the function only through the emitted callbacks')
   rep.depends('C09', ['IFACE-ERASE', 'IFACE-INST', 'IFACE-BIND', 'IFACE-SELF', 'IFACE-ARGS'],
               'the converted function must accept the same calls in the same environment')
-  rep.depends('C11', ['HYG-RESERVED', 'HYG-NAMER', 'HYG-BIND', 'HYG-BINDER', 'HYG-FREE', 'HYG-SUPPORT'],
+  rep.depends('C11', None,
               'a generated name that captures or shadows a user name changes which object the user name denotes')
   rep.depends('C13', ['CALL-ONCE', 'CALL-FAITHFUL', 'CALL-NODOUBLE', 'CALL-PARTIAL', 'CALL-OPTS'],
               'every call of the user goes through the call wrapper, at any depth')
